@@ -156,10 +156,13 @@ def check_spec(ctx, spec):
     observed = []
     page_rows = []
     seen_rows = []
+    extra = E.extra_roles(spec)
+    pbkeys = [tuple(E.display(v) for v in k) for k in pbkeys]
+    sbkeys = [tuple(E.display(v) for v in k) for k in sbkeys]
     for p, pg in enumerate(doc.pages):
         seq = []
         rows = []
-        roles = E.page_roles(pg)
+        roles = E.page_roles(pg, extra)
         for role, b in roles:
             if role is None:
                 txt = getattr(b, "texts", None) or getattr(b, "text", "")
@@ -348,6 +351,31 @@ def random_spec(rng):
         body["subline_by"] = [f"N{lvl}" for lvl in range(sbn)]
     if rng.random() < 0.4:
         body["pageby_header"] = rng.random() < 0.5
+    if rng.random() < 0.25:
+        # group values off the sentinel scheme: falsy numbers (0, 0.0, False), spellings next to the divider,
+        # labels that differ by blanks only
+        gcols = [c for c in cols if c["name"] in set(body.get("page_by") or []) | set(body.get("subline_by") or [])]
+        c = rng.choice(gcols) if gcols else None
+        if c is not None:
+            labels = sorted(set(c["values"]))
+            kind = rng.choice(["int", "float", "bool", "neardiv", "blanks"])
+            if kind == "int":
+                m = {v: i for i, v in enumerate(labels)}
+                c["dtype"], c["values"] = "int", [m[v] for v in c["values"]]
+            elif kind == "float":
+                m = {v: i * 0.5 for i, v in enumerate(labels)}
+                c["dtype"], c["values"] = "float", [m[v] for v in c["values"]]
+            elif kind == "bool" and len(labels) <= 2:
+                m = {v: bool(i) for i, v in enumerate(labels)}
+                c["dtype"], c["values"] = "bool", [m[v] for v in c["values"]]
+            elif kind == "neardiv":
+                alt = ["----- ", " -----", "------", "----", "- - -"]
+                m = {v: (alt[i % len(alt)] if i < 2 else v) for i, v in enumerate(rng.sample(labels, len(labels)))}
+                c["values"] = [m[v] for v in c["values"]]
+            elif kind == "blanks" and len(labels) >= 2:
+                a = labels[0]
+                m = {labels[0]: a, labels[1]: a + " "}
+                c["values"] = [m.get(v, v) for v in c["values"]]
     G.retype_keys(rng, cols, set(body.get("page_by") or []) | set(body.get("subline_by") or []))
     spec = {"kind": "table", "df": {"cols": cols}, "body": body, "title": None, "page": {"nrow": nrow}}
     ndisp = len(E.displayed_columns(spec["df"], body))
